@@ -22,8 +22,10 @@ fn main() {
 /// Replace the update function of the given `variable` with a flattened version using only
 /// zero arity parameters.
 fn flatten_update_function(network: &mut BooleanNetwork, variable: VariableId) {
-    if network.regulators(variable).is_empty() {
-        // Skip zero-regulator variables.
+    if network.regulators(variable).is_empty() && network.get_update_function(variable).is_none() {
+        // Skip zero-regulator variables without a function (they stay free inputs). A zero-regulator
+        // variable WITH a function (e.g. `$a: k`) must be flattened as well, otherwise its parameters
+        // keep their original names while the same parameters are renamed in other functions.
         return;
     }
 
